@@ -3,6 +3,7 @@ package rules
 import (
 	"fmt"
 	"go/token"
+	"go/types"
 	"strings"
 
 	"golang.org/x/tools/go/ssa"
@@ -107,6 +108,30 @@ func condReadsPartyState(fn *ssa.Function, cond ssa.Value, pr *Protocol) string 
 				return
 			case strings.HasPrefix(n, "builtin:"):
 			default:
+				// a private helper that classifies the message (picks the slot for its content type): its
+				// boolean verdicts are constants or depend on its arguments only
+				if h := core.Callee(x); core.PrivateHelper(h) && !x.Call.IsInvoke() && d < 6 {
+					okH := true
+					for _, ret := range core.Returns(h) {
+						for _, res := range ret.Results {
+							if b, isB := res.Type().Underlying().(*types.Basic); !isB || b.Kind() != types.Bool {
+								continue
+							}
+							if _, isK := core.ConstBool(core.Strip(res)); isK {
+								continue
+							}
+							if condReadsPartyState(h, res, pr) != "" {
+								okH = false
+							}
+						}
+					}
+					if okH {
+						for _, a := range x.Call.Args[1:] {
+							walk(a, d+1)
+						}
+						return
+					}
+				}
 				why = "a call to " + core.CalleeShort(x)
 				return
 			}
